@@ -642,6 +642,36 @@ def _rewrite_zip_fold(body, applied):
     return body[:m.start()] + new + body[c + 1:]
 
 
+def _rewrite_chars_loop(body, applied):
+    """R33: `for c in E.chars() { S }`  ->  `{ let cs_ = str_chars(E); let mut i_: usize = 0; while i_ < cs_.len() { let c = cs_[i_]; S  i_ = i_ + 1; } }`
+    (A-STD: `str::chars` yields the characters of the string in order; `str_chars` is its stand-in with `r@ == E@`).
+    An early `return` inside S stays a return; `break` / `continue` are refused."""
+    sb = Src("<b>", body)
+    m = None
+    for mm in re.finditer(r'\bfor\s+(\w+)\s+in\s+(\w+)\s*\.\s*chars\(\)\s*\{', body):
+        if sb.mask[mm.start()]:
+            m = mm
+            break
+    if not m:
+        raise Unsupported("R33: `.chars()` not of the form `for c in E.chars() { .. }`")
+    var, e = m.group(1), m.group(2)
+    o = m.end() - 1
+    c = sb.match_close(o)
+    inner = body[o + 1:c]
+    si = Src("<i>", inner)
+    for bm in re.finditer(r'\b(break|continue)\b', inner):
+        if si.mask[bm.start()]:
+            raise Unsupported("R33: chars loop contains " + bm.group(1))
+    new = f"""{{ let cs_ = str_chars({e}); let mut i_: usize = 0;
+        while i_ < cs_.len()
+        {{
+            let {var} = cs_[i_];{inner}
+            i_ = i_ + 1;
+        }} }}"""
+    applied.append(("R33", f"for {var} in {e}.chars()", "index loop over str_chars (A-STD)"))
+    return body[:m.start()] + new + body[c + 1:]
+
+
 def _tail_start(body):
     """offset in `body` ('{...}') where the tail expression starts (after the last top-level statement)"""
     s = Src("<b>", body)
@@ -830,6 +860,8 @@ def build_fn(unit, item, imp, fnitem, spec: Fn, cover=False):
         body = _rewrite_zip_chunks(body, applied)
     elif re.search(r'\.\s*zip\s*\(', body) and re.search(r'\.\s*fold\s*\(', body):
         body = _rewrite_zip_fold(body, applied)
+    if re.search(r'\.\s*chars\(\)\s*\{', body):
+        body = _rewrite_chars_loop(body, applied)
     if getattr(unit, "tail_assert", False):
         body = _rewrite_early_return(body, applied)
     # R18: unroll constant-bound `for` loops (no invariant needed, so no reference to the body's locals)
